@@ -50,7 +50,8 @@ Apply == /\ pc = "apply"
          /\ pc' = "next" /\ UNCHANGED <<list, i, chain, probe>>
 NextSvc == /\ pc = "next" /\ i' = i + 1 /\ pc' = IF i + 1 > Len(list) THEN "serve" ELSE "group"
            /\ UNCHANGED <<list, chain, routes, probe>>
-\* serving one request: run the chain
+\* serving one request: run the chain.  (The sender may give up at any moment -- its connection is reset while the token is
+\* still being checked: that is no step of the chain; the answer below is what the router does whoever still listens.)
 Answer(r, tok) == IF \E k \in 1..Len(r.chain) : r.chain[k] = "auth" /\ tok # "valid" /\ \A j \in 1..(k - 1) : r.chain[j] # "handler"
                     THEN [status |-> 401, processed |-> FALSE] ELSE [status |-> 200, processed |-> TRUE]
 Serve == /\ pc = "serve" /\ probe = <<>>
